@@ -310,6 +310,9 @@ func descD(v ssa.Value, depth int) string {
 		}
 		return "call:" + name + "(" + strings.Join(args, ",") + ")"
 	case *ssa.Phi:
+		if isInduction(x) {
+			return "#i"
+		}
 		var es []string
 		seen := map[string]bool{}
 		for _, e := range x.Edges {
@@ -338,6 +341,11 @@ func descD(v ssa.Value, depth int) string {
 	case *ssa.Convert:
 		return descD(x.X, depth+1)
 	case *ssa.BinOp:
+		if ph, ok := x.X.(*ssa.Phi); ok && x.Op == token.ADD && ph.Comment == "rangeindex" && isInduction(ph) {
+			if c, ok := constInt(x.Y); ok && c == 1 {
+				return "#i"
+			}
+		}
 		return "(" + descD(x.X, depth+1) + x.Op.String() + descD(x.Y, depth+1) + ")"
 	case *ssa.MakeMap:
 		return "makemap"
